@@ -394,6 +394,58 @@ def check_crc(cx, chk):
                       "front end does not correspond to the grammar in the tree" % (m.group(1) if m else None, crc), "codegen/src/grammar/generated.rs:2")
 
 
+def check_ws_class(cx, chk, g):
+    """Whitespace is one class: a rule of the grammar of grammars (other than Whitespace / Comment, which define the class) that
+    names a whitespace character as one alternative of a choice - typically the terminator set of a token, `!( ')' | ' ' )` -
+    names all of them, or it treats a newline or a tab differently from a blank and layout changes what a grammar text means."""
+    ws = g.rule("Whitespace")
+    if ws is None or ws.body is None:
+        chk.anchor_missing("C12.tokens", "rule Whitespace of grammar.ebnf")
+        return
+    def lits(e):
+        if isinstance(e, tuple):
+            if e and e[0] == "lit" and len(e[1]) == 1:
+                yield e[1][0]
+            for x in e[1:]:
+                if isinstance(x, (tuple, list)):
+                    for y in (x if isinstance(x, list) else [x]):
+                        yield from lits(y)
+    WS = {c for c in lits(ws.body) if len(c) == 1 and c.isspace()}
+    n = 0
+    def single_alt_lit(alt):
+        # ('seq', [('lit', (c,), ins)]) -> c
+        if alt[0] == "seq" and len(alt[1]) == 1 and alt[1][0][0] == "lit" and len(alt[1][0][1]) == 1:
+            return alt[1][0][1][0]
+        if alt[0] == "lit" and len(alt[1]) == 1:
+            return alt[1][0]
+        return None
+    def walk_e(e, rule):
+        nonlocal n
+        if not isinstance(e, tuple) or not e:
+            return
+        if e[0] == "choice" and len(e[1]) > 1:
+            cs = [single_alt_lit(a) for a in e[1]]
+            have = {c for c in cs if c is not None and len(c) == 1 and c in WS}
+            if have:
+                n += 1
+                if have != WS:
+                    chk.violation("C12.tokens", "%s partial-whitespace" % rule.name,
+                                  "rule %s of grammar.ebnf lists %s among the alternatives of a choice but not %s: it treats some whitespace characters "
+                                  "differently from the others (a name that ends at a blank but swallows a newline or a tab), so the layout of a grammar "
+                                  "text changes how it is read" % (rule.name, sorted(have), sorted(WS - have)))
+        for x in e[1:]:
+            if isinstance(x, list):
+                for y in x:
+                    walk_e(y, rule)
+            elif isinstance(x, tuple):
+                walk_e(x, rule)
+    for r in g.rules:
+        if r.kind != "rule" or r.name in ("Whitespace", "Comment") or r.body is None:
+            continue
+        walk_e(r.body, r)
+    chk.ok("C12.tokens", "whitespace is one class", {"whitespace_characters": sorted(WS), "choices_naming_whitespace_outside_the_class_rules": n})
+
+
 def check_use(cx, chk):
     """What the front end reads it hands to the generator: every named field of the syntax-tree types generated from grammar.ebnf
     is read by the generator's own code somewhere.  A field that is filled but never read is a part of the grammar text that is
@@ -453,6 +505,7 @@ def run(cx, chk):
     check_escapes(cx, chk, g)
     check_flags(cx, chk, g)
     check_tokens(cx, chk, g)
+    check_ws_class(cx, chk, g)
     check_use(cx, chk)
     check_crc(cx, chk)
     try:
